@@ -14,3 +14,15 @@ func VerifEvalTokensDate(seq int, uid int64, flags string, y, m, d int, tokens [
 	return evaluateTokens(messageInfo{seqNum: seq, uid: uid, flags: flags,
 		internalDate: time.Date(y, time.Month(m), d, 12, 0, 0, 0, time.UTC)}, tokens, "US-ASCII", 0, nil)
 }
+
+// zoned variants: the time.Time is built in a fixed zone `off` seconds east of
+// UTC at hh:mi local time, so that its calendar day may differ from its UTC day.
+
+func VerifMatchesDateZone(y, m, d, hh, mi, off int, dateStr, cmp string) bool {
+	return matchesDate(time.Date(y, time.Month(m), d, hh, mi, 0, 0, time.FixedZone("", off)), dateStr, cmp)
+}
+
+func VerifEvalTokensZone(seq int, uid int64, flags string, y, m, d, hh, mi, off int, tokens []string) bool {
+	return evaluateTokens(messageInfo{seqNum: seq, uid: uid, flags: flags,
+		internalDate: time.Date(y, time.Month(m), d, hh, mi, 0, 0, time.FixedZone("", off))}, tokens, "US-ASCII", 0, nil)
+}
